@@ -551,6 +551,8 @@ where
                             *running[w].lock().unwrap() = Some((t_base.elapsed().as_millis() as u64, bytes.clone()));
                             let mut src = Src::new(bytes);
                             let case = decode(&mut src);
+                            // (a fatal signal while this case runs is reported with the case)
+                            let _running = crate::props::c11::crash::running(&case);
                             let r = match guarded(|| oracle(&case, stats)) {
                                 Ok(r) => r,
                                 Err(p) => Err(p),
@@ -658,6 +660,9 @@ where
                             break;
                         }
                         for i in lo..(lo + block).min(total) {
+                            // (enumerated cases are rebuilt from their index: a fatal signal is
+                            // reported with the index, there is no case value to save)
+                            let _running = crate::props::c11::crash::enter((i as usize + 1, 0));
                             let r = match guarded(|| oracle(i, &mut stats)) {
                                 Ok(r) => r,
                                 Err(p) => Err(Failure {
